@@ -26,7 +26,7 @@ func protoCheck(r *ev.Run, plan []Plan, mk func() (vnet.Monitor, func() ([]mon.V
 	})
 }
 
-var hostilePlan = []Plan{{"byz", 1200, 50000}, {"async-benign", 900, 40000}, {"missing-tx", 400, 15000}, {"sync-perm", 200, 5000}}
+var hostilePlan = []Plan{{"byz", 1200, 50000}, {"async-benign", 900, 40000}, {"missing-tx", 400, 15000}, {"sync-perm", 200, 5000}, {"amnesia-async", 400, 25000}}
 
 func C03(r *ev.Run) {
 	r.SetRule(ruleRuns + "the run contains a commit or pre-commit of an honest node followed by further traffic to it, or a view entry")
